@@ -122,6 +122,11 @@ def thread_paths(repo, prefix, fq=None):
                     for item in st.items:
                         if not mentions(item.context_expr) and not _is_lock_expr(item.context_expr):
                             raise Unsupported('with-statement around the shared attribute is not a lock')
+                        why = _lock_not_shared(item.context_expr, fi.module)
+                        if why:
+                            # the Lock contract gives mutual exclusion among holders of one lock object only
+                            I_.hooks['lock_not_shared'] = True
+                            LOCK_NOTES.add(f'line {st.lineno}: `with {ast.unparse(item.context_expr)}` - {why}')
                 return False
             if isinstance(st, (ast.Return, ast.Pass, ast.Global, ast.Nonlocal, ast.Raise, ast.Break, ast.Continue)):
                 return False
@@ -156,6 +161,40 @@ def thread_paths(repo, prefix, fq=None):
                tuple(str(c) for c in p.pc))
         uniq.setdefault(key, p)
     return list(uniq.values()), sorted(abstracted_lines)
+
+
+LOCK_NOTES = set()
+
+
+def _lock_not_shared(e, module):
+    """None if the context expression denotes one lock object shared by all threads - a class attribute initialised to
+    threading.Lock() / RLock() in the class body and assigned nowhere else in the module -, else the reason."""
+    if not (isinstance(e, ast.Attribute) and isinstance(e.value, ast.Name)):
+        return 'not a plain class attribute: which lock object a thread gets is decided at run time'
+    name, owner = e.attr, e.value.id
+    tree = module.tree if hasattr(module, 'tree') else None
+    if tree is None:
+        return 'module source not available'
+    init_ok = False
+    for c in [n for n in ast.walk(tree) if isinstance(n, ast.ClassDef)]:
+        if owner not in (c.name, 'cls', 'self'):
+            continue
+        for stn in c.body:
+            tg = stn.targets[0] if isinstance(stn, ast.Assign) and len(stn.targets) == 1 else (stn.target if isinstance(stn, ast.AnnAssign) else None)
+            if isinstance(tg, ast.Name) and tg.id == name and getattr(stn, 'value', None) is not None:
+                if ast.unparse(stn.value).replace(' ', '') in ('threading.Lock()', 'threading.RLock()', 'Lock()', 'RLock()'):
+                    init_ok = True
+                else:
+                    return f'class attribute {name} is not initialised to a Lock() in the class body'
+    if not init_ok:
+        return f'no class-level `{name} = threading.Lock()` found'
+    for n in ast.walk(tree):
+        if isinstance(n, ast.Attribute) and n.attr == name and isinstance(n.ctx, (ast.Store, ast.Del)):
+            return f'{name} is assigned again at line {n.lineno}: threads may hold different lock objects'
+        if isinstance(n, ast.Call) and isinstance(n.func, ast.Name) and n.func.id in ('setattr', 'delattr') and len(n.args) >= 2 \
+                and isinstance(n.args[1], ast.Constant) and n.args[1].value == name:
+            return f'{name} is re-bound through {n.func.id} at line {n.lineno}'
+    return None
 
 
 def _is_lock_expr(e):
@@ -315,6 +354,8 @@ def interference(h):
                 del h.ctx.pc[saved:]
                 h.ctx.solver.pop()
     h.ctx.named.pop('schedule', None)
+    # the Lock contract's precondition (what the grouping of the guarded block rests on)
+    h.ensure('the-guard-is-one-lock-object-shared-by-all-threads', not LOCK_NOTES, note='; '.join(sorted(LOCK_NOTES)))
     h.ctx.notes.append(f'{n_inter} interleavings of {len(pa)}x{len(pb)} action sequences')
     if n_inter == 0:
         raise Unsupported('no interleavings generated (zero obligations is an error)')
@@ -489,10 +530,69 @@ def replay_sequential(payload):
     return dict(reproduced=bool(seq), observed=seq[:4], required='once a thread has created a store, every other thread is refused -- before and after close')
 
 
+def racing_lock_creation():
+    """Two first-time creators with a scheduling point inside every threading.Lock() made while a constructor runs: a guard
+    whose lock is made on demand lets each of them make (and hold) its own lock.  With a lock made once at class definition
+    no Lock() is created during construction and the scenario is the plain race."""
+    import threading
+    import AEIC.trajectories.store as store_mod
+    from AEIC.trajectories.store import TrajectoryStore
+    TrajectoryStore.active_in_thread = None
+    real_lock = threading.Lock
+    barrier = threading.Barrier(2)
+    made = []
+
+    class ThreadingProxy:
+        def __getattr__(self, name):
+            return getattr(threading, name)
+
+        @staticmethod
+        def Lock():
+            made.append(threading.get_ident())
+            try:
+                barrier.wait(timeout=3)       # both racers are inside "make the lock" at the same time
+            except threading.BrokenBarrierError:
+                pass
+            return real_lock()
+    results = {}
+    hold = threading.Event()
+
+    def racer(name):
+        try:
+            ts = TrajectoryStore.create()
+            results[name] = 'created'
+            hold.wait(5)
+            ts.close()
+        except RuntimeError as e:
+            results[name] = 'refused'
+        except Exception as e:   # noqa
+            results[name] = f'{type(e).__name__}: {e}'
+    saved = store_mod.threading
+    store_mod.threading = ThreadingProxy()
+    try:
+        ths = [threading.Thread(target=racer, args=(n,)) for n in ('A', 'B')]
+        for t in ths:
+            t.start()
+        import time
+        time.sleep(4)
+        hold.set()
+        for t in ths:
+            t.join(10)
+    finally:
+        store_mod.threading = saved
+        TrajectoryStore.active_in_thread = None
+    if list(results.values()).count('created') > 1:
+        return [f'two threads racing for their first store both created one (each made its own guard lock: Lock() was called {len(made)} times during construction): {results}']
+    return []
+
+
 def replay(payload):
     r = replay_schedule(payload)
     if r.get('reproduced'):
         return r
+    race = racing_lock_creation()
+    if race:
+        return dict(reproduced=True, observed=race, required='of two threads racing for their first store exactly one succeeds', schedule_replay=r)
     seq = sequential_faults()
     if seq:
         return dict(reproduced=True, observed=seq, required='a thread that owns a store keeps the confinement whatever its later constructor calls do',
